@@ -1145,8 +1145,8 @@ func (el edgeList) Len() int {
 }
 
 func (el edgeList) Less(i, j int) bool {
-	if el[i].Weight != el[j].Weight {
-		return abs64(el[i].Weight) > abs64(el[j].Weight)
+	if wi, wj := abs64(el[i].Weight), abs64(el[j].Weight); wi != wj {
+		return wi > wj
 	}
 
 	from1 := el[i].Src.Info.PrintableName()
@@ -1157,8 +1157,16 @@ func (el edgeList) Less(i, j int) bool {
 
 	to1 := el[i].Dest.Info.PrintableName()
 	to2 := el[j].Dest.Info.PrintableName()
+	if to1 != to2 {
+		return to1 < to2
+	}
 
-	return to1 < to2
+	// Distinct nodes can share a printable name; break the tie on the full
+	// node information so that the order is total.
+	if compareNodes(el[i].Src, el[j].Src) || compareNodes(el[j].Src, el[i].Src) {
+		return compareNodes(el[i].Src, el[j].Src)
+	}
+	return compareNodes(el[i].Dest, el[j].Dest)
 }
 
 func (el edgeList) Swap(i, j int) {
